@@ -190,7 +190,11 @@ func verifDump[V any](b *strings.Builder, a AST, constStr func(V) string) {
 		verifDumpList(b, n.List, constStr)
 		b.WriteString(")")
 	case *Ident:
-		b.WriteString("(AIdent " + verifCoqStr(n.Name) + ")")
+		isFunc := "false"
+		if n.IsFunc {
+			isFunc = "true"
+		}
+		b.WriteString("(AIdent " + verifCoqStr(n.Name) + " " + isFunc + ")")
 	case *Const[V]:
 		b.WriteString("(AConst " + verifCoqStr(constStr(n.Value)) + ")")
 	case *FunctionCall:
